@@ -272,9 +272,16 @@ def history_case(ctx, h, nsteps, lines, reals):
                 s_ = rng.choice(list(c.eSuperTypes)); c.eSuperTypes.remove(s_)
                 log.append(f'{c.name}.remove-supertype {s_.name}')
                 emit(f'removesuper {ci} {classes.index(s_)}')
-            elif k < .87:
+            elif k < .82:
                 instances.append((c(), c)); log.append(f'new {c.name}')
                 emit(f'newinst {ci}')
+            elif k < .9:
+                # the declaration of a live operation grows (a loader attaches an operation before its parameters)
+                if not len(c.eOperations):
+                    continue
+                op = rng.choice(list(c.eOperations))
+                op.eParameters.append(E.EParameter(f'q{len(op.eParameters)}', E.EInt, required=True))
+                log.append(f'parameter added to {c.name}.{op.name}')
             else:
                 if not len(c.eOperations):
                     continue
